@@ -9,8 +9,8 @@ CONFIGS = {
     'thorough': [('macro-rich', ('H_M', 'M_MA', 'T_MA', 'O_MA', 2, 3), 60000),
                  ('body-rich', ('H_M', 'M_MB', 'T_MB', 'O_MB', 4, 4), 60000)],
 }
-OWNED = {'error_type', 'accepted', 'no_macro_calls', 'meaning_mod_sub', 'sub_annotations', 'header_carried',
-         'imports_carried', 'definitions'}
+OWNED = {'accepted', 'no_macro_calls', 'meaning_mod_sub', 'sub_annotations', 'header_carried',
+         'imports_carried', 'definitions', 'refs_follow_decls'}
 
 
 def owned(site):
